@@ -50,6 +50,7 @@ var checks = map[string]func() int{
 	"C10": checkC10,
 	"C11": checkC11,
 	"C12": checkC12,
+	"C13": checkC13,
 	"C15": checkC15,
 	"C17": checkC17,
 	"C16": checkC16,
